@@ -119,6 +119,8 @@ pub fn run(tier: Tier) -> i32 {
         let t1 = call_table([1, 1, 1]);
         cs.push(mk("equal-prios-n3", &t1, al(&[0, 1, 2, 3, 5, 6], &[9], vec![Tree::lit(1), Tree::var("x"), Tree::var("y")]), vec![(3, 0), (3, 1)], call_subsets, vec![0]));
     }
+    // variable names that contain parentheses (anything in curly braces is one variable)
+    cs.push(mk("paren-names", &t0, al(&[0, 3, 5, 6], &[5, 9], vec![Tree::var("x("), Tree::var(")y"), Tree::var("a,b"), Tree::lit(1)]), if tier.thorough() { vec![(2, 0), (2, 1), (3, 0), (3, 1), (4, 0), (4, 1)] } else { vec![(2, 0), (2, 1), (3, 0), (3, 1), (4, 0)] }, call_subsets_plus_one, vec![0]));
     // every binary operator in call form (symbolic and sign-like operators too)
     let ta = call_table_all([0, 1, 2]);
     let mut all = |name: &str, table: &Arc<Table>, a: Alphabet, sizes: Vec<(usize, usize)>, gen: fn(&Renderer, &Tree) -> Vec<Vec<u8>>, blanks: Vec<u8>| {
